@@ -21,6 +21,7 @@ from sim.streams import SimReader, ReadBudgetExceeded
 PROPERTY = 'C07'
 LEVEL = 'exploration'
 CASE_TIMEOUT = 120
+REPLAY_ATTEMPTS = 5      # the primed deliveries depend on address reuse, which the simulator does not own
 RULE = ('one evaluation = one delivery (form x read-size schedule x refill-block knob) of a seeded text through one API '
         'and back-end, compared with the in-memory str delivery of the same text; non-trivial = the stream returned at '
         'least one piece that is not a full requested block; distinct = distinct (text, API, back-end, form, read log) digests')
@@ -262,6 +263,10 @@ def generate(seed, tier):
                 continue
             data, _, _, _ = build_defect(text, defect, fam)
             dels.append({'form': fam, 'via': 'memory'})
+            if r.random() < 0.4:
+                # the same in-memory delivery once more, right after a CLEAN text of the same length and kind was loaded and
+                # released (a config file re-read after an edit): what was learnt about that object must not stick to this one
+                dels.append({'form': fam, 'via': 'memory', 'prime': True})
             dels.append({'form': fam, 'via': 'sim', 'sizes': [], 'then': 1, 'block': 1 if backend == 'py' else None, 'lazy': True})
             for _ in range(r.randint(1, 3)):
                 block = r.choice([None, None, 1, 2, 3, 7, 64]) if backend == 'py' else None
@@ -689,7 +694,25 @@ def execute(case):
         data, pos_py, c_lo, c_hi = build_defect(text, defect, family)
         results = []
         for i, d in dels:
-            items, err, readlog, _ = deliver(yaml, data, d, api, backend, 0)
+            if d.get('prime'):
+                clean_defect = dict(defect, kind='nonprintable', char='x', second=None) if defect['kind'] == 'nonprintable' else None
+                if clean_defect is not None:
+                    twin = build_defect(text, clean_defect, family)[0]
+                    if len(twin) == len(data):
+                        try:
+                            for _ in getattr(yaml, api)(twin, Loader=loader_class(yaml, backend, None)):
+                                pass
+                        except kernel.Hang:
+                            raise
+                        except Exception:
+                            pass        # whatever the clean twin does (e.g. '!!int x' -> ValueError in a constructor) is not the subject here
+                        out['probes']['primed_in_memory_deliveries'] = out['probes'].get('primed_in_memory_deliveries', 0) + 1
+                    del twin
+                fresh = build_defect(text, defect, family)[0]        # a new object, allocated after the twin was released
+                items, err, readlog, _ = deliver(yaml, fresh, d, api, backend, 0)
+                del fresh
+            else:
+                items, err, readlog, _ = deliver(yaml, data, d, api, backend, 0)
             out['evals'] += 1
             note(d, family, data, readlog)
             logparts.append([i, observe.digest([items, err]), readlog])
